@@ -160,10 +160,15 @@ def triple_obligations(chk, mg, tier, rng):
 def lsq_obligations(chk, mg, tier, rng):
     """lsq_poly with concrete volumes: for ln omega = sum_d a_d (ln V)^d (d <= order) the triple is (exp p, -p', -p'') exactly."""
     from symnum.exactlift import exact_lstsq
-    nvol = 7
-    vols_f = numpy.array([400.0 - 25.0 * i for i in range(nvol)])
+    cases = []
     for order in (METHODS["lsq_poly"] if tier != "quick" else [1, 3]):
-        name = "lsq_poly[order=%d]" % order
+        # the number of sampled volumes matters: order = nv - 1 is the exactly determined (interpolating) fit, which is admissible
+        for nvol in ([order + 1, 7] if tier == "quick" else [order + 1, order + 2, 7, 9]):
+            if (order, nvol) not in cases and nvol >= 2:
+                cases.append((order, nvol))
+    for order, nvol in cases:
+        vols_f = numpy.array([400.0 - 25.0 * i for i in range(nvol)])
+        name = "lsq_poly[order=%d, nv=%d]" % (order, nvol)
         ctx = new_context()
         freqs = symvars("w", (nvol,), positive=True)
         v_array = symvars("v", (2,), positive=True)
@@ -196,7 +201,7 @@ def lsq_obligations(chk, mg, tier, rng):
             continue
         except Exception as e:
             chk.obligation(name, "sat", kind="identity", detail="raises %s: %s" % (type(e).__name__, e))
-            replay_method(chk, mg, "lsq_poly", order, rng, "raises %s" % e)
+            replay_method(chk, mg, "lsq_poly", order, rng, "raises %s" % e, nvol=nvol)
             continue
         a = [ctx.var("a%d" % d) for d in range(order + 1)]
         lx = dyadic
@@ -224,14 +229,14 @@ def lsq_obligations(chk, mg, tier, rng):
         chk.obligation(name + ": exact for ln omega polynomial in ln V up to the order (contains the power law)", "unsat" if not fails else "sat",
                        seconds=round(time.time() - t0, 2), kind="identity(exact least squares)", detail=fails[:3])
         if fails:
-            replay_method(chk, mg, "lsq_poly", order, rng, fails[0])
+            replay_method(chk, mg, "lsq_poly", order, rng, fails[0], nvol=nvol)
 
 
-def replay_method(chk, mg, method, order, rng, what):
+def replay_method(chk, mg, method, order, rng, what, nvol=8):
     """Concrete: power-law data omega = A V^-g; every method must return (A v^-g, g, 0) on an extrapolated grid.
     lsq_poly additionally: ln omega polynomial in ln V of degree = order."""
-    if method == "lsq_poly" and order >= 2:
-        vols = numpy.linspace(420.0, 280.0, 8)
+    if method == "lsq_poly" and order >= 1:
+        vols = numpy.linspace(420.0, 280.0, nvol)
         v = numpy.linspace(440.0, 260.0, 9)
         x0 = numpy.log(350.0)
         co = [6.0, -1.3, 0.4, -0.2, 0.1, 0.05][:order + 1]
@@ -241,10 +246,10 @@ def replay_method(chk, mg, method, order, rng, what):
             lv = numpy.log(v)
             if numpy.abs(w / numpy.exp(px(lv)) - 1).max() > 1e-7 or numpy.abs(gm + px(lv, 1)).max() > 1e-6 or numpy.abs(vd + px(lv, 2)).max() > 1e-5:
                 chk.violation("lsq_poly:polynomial-data", "lsq_poly (order %d) is not exact for ln omega polynomial in ln V of that degree: "
-                              "gamma=%s expected %s" % (order, gm[:3].tolist(), (-px(lv, 1))[:3].tolist()), dict(order=order))
+                              "gamma=%s expected %s" % (order, gm[:3].tolist(), (-px(lv, 1))[:3].tolist()), dict(order=order, nv=nvol))
                 return
         except Exception as e:
-            chk.violation("lsq_poly:raises", "lsq_poly raises %s: %s" % (type(e).__name__, e), dict(order=order))
+            chk.violation("lsq_poly:raises", "lsq_poly raises %s: %s" % (type(e).__name__, e), dict(order=order, nv=nvol))
             return
     vols = numpy.linspace(420.0, 280.0, 8)
     g, A = 1.37, 5.0e4
